@@ -262,7 +262,7 @@ func (c *Case) Bounded(key string, d time.Duration, fn func()) {
 			v := Violation{
 				Property: c.Prop, Key: key, Seed: c.Seed, Case: c.Index, Build: c.Build, Tier: c.Tier,
 				Msg:    fmt.Sprintf("bounded-progress probe did not return within %v", d),
-				Script: script, Stack: trimStack(string(buf[:n]), 6000),
+				Script: script, Stack: trimStack(string(buf[:n]), 60000),
 			}
 			c.runner.addViolation(v)
 			c.runner.flush(false)
